@@ -37,6 +37,7 @@ TARGETS = {
     "c12_domain": ("mpi", ["harness/c12_domain.cpp"], True),
     "c13_scalar": ("mpi", ["harness/c13_scalar.cpp"], True),
     "c13_app":    ("mpi", ["harness/c13_app.cpp"], True),
+    "c13_app_neumann": ("mpi", ["harness/c13_app_neumann.cpp"], True),
     "c13_q2":     ("mpi", ["harness/c13_q2.cpp"], True),
     "c13_dg":     ("mpi", ["harness/c13_dg.cpp"], True),
     "c05_streams": ("nompi", ["harness/c05_streams.cpp"], False),
@@ -47,7 +48,7 @@ TARGETS = {
 PROPERTY_TARGETS = {
     "C17": ["c17_fence", "c17_asm"],
     "C12": ["c12_domain"],
-    "C13": ["c13_scalar", "c13_app", "c13_q2", "c13_dg"],
+    "C13": ["c13_scalar", "c13_app", "c13_app_neumann", "c13_q2", "c13_dg"],
     "C05": ["c05_streams", "c05_checkpoint"],
     "C11": ["c11_mesh", "c11_pmap"],
     "SIMMPI": ["simmpi_selftest"],
